@@ -102,6 +102,8 @@ def parse_output(text: str) -> Dict[str, HarnessResult]:
             hr.status = 'error'
         for fm in re.finditer(r'Failed Checks: (.*)\n(?:\s*File: "(.*?)", line (\d+), in (\S+))?', body):
             d = fm.group(1).strip()
+            if len(d) >= 2 and d[0] == '"' and d[-1] == '"':
+                d = d[1:-1]          # custom assertion messages are printed quoted
             if fm.group(4):
                 d += f' [in {fm.group(4)}]'
             hr.failed_checks.append(d)
